@@ -602,6 +602,36 @@ class World:
         self.ctx.count('clones')
         return ('clone',)
 
+    def s_release_at_zero(self):
+        """`decref` of a stored node whose count is zero: documented as
+        tolerated ("with 0 as minimum value"; a warning, no effect)."""
+        if self.kind != 'bdd' or self.reordering:
+            return ('release-at-zero-skip',)
+        a, b = self.pick(), self.pick()
+        r = self.raw.apply('xor', a.h, b.h)
+        u = abs(r)
+        if u == 1 or self.raw._ref.get(u) != 0:
+            return ('release-at-zero-skip',)
+        # the warning of this call is the harness' own doing
+        import warnings as _w
+        with _w.catch_warnings(record=True) as seen:
+            _w.simplefilter('always')
+            self.raw.decref(r)
+        self.ctx.count('releases_at_count_zero')
+        if not any('decref' in str(x.message) for x in seen):
+            self.ctx.count('release_at_zero_without_warning_observed')
+        if self.raw._ref.get(u) != 0:
+            raise Violation('decref', 'count-below-zero-after-release-at-zero',
+                            dict(node=u, count=self.raw._ref.get(u)))
+        # the node can be taken again, and is then safe from collection
+        self.raw.incref(r)
+        self.raw.collect_garbage()
+        if u not in self.raw._succ:
+            raise Violation('decref', 'held-node-freed-after-release-at-zero',
+                            u)
+        self.raw.decref(r)
+        return ('release-at-zero',)
+
     def s_rearm(self):
         """Dynamic reordering: release most references, collect, and
         enable reordering again, so that the growth threshold is low
